@@ -71,6 +71,7 @@ def build(u):
     ar = u.src("proxy_agent/src/proxy/authorization_rules.rs")
     psum = u.src("proxy_agent/src/proxy/proxy_summary.rs")
     ags = u.src("proxy_agent_shared/src/proxy_agent_aggregate_status.rs")
+    u.raw("use vstd::std_specs::hash::*;")
     for f in ("str_axioms.rs", "ext_types.rs", "std_string.rs", "hash_str.rs"):
         u.raw(open(os.path.join(COMMON, f)).read())
     u.raw_file("deps.rs")
@@ -88,7 +89,6 @@ def build(u):
             u.take(ags, "ProxyConnectionSummary", "struct")
     with u.mod("key_keeper"):
         with u.mod("key", uses="use std::collections::HashMap;"):
-            u.take_ext(key, ["Privilege", "Identity"], "vx_ext_key_types", uses="use serde_derive::{Deserialize, Serialize};\nuse std::collections::HashMap;")
             u.take(key, "Key", "struct")
             with u.impl_(key, "<Key as Clone>"):
                 # Key's hand-written Clone: proved to be a faithful copy (GetKey replies a clone)
@@ -97,8 +97,8 @@ def build(u):
 """)
     with u.mod("proxy"):
         with u.mod("authorization_rules"):
-            u.take_ext(ar, ["AuthorizationMode", "ComputedAuthorizationItem"], "vx_ext_authz_types",
-                       uses="use crate::key_keeper::key::{Identity, Privilege};\nuse serde_derive::{Deserialize, Serialize};\nuse std::collections::{HashMap, HashSet};")
+            # E13: the rule tables are only stored and handed back by the actor arms (never looked into)
+            u.placeholder_ext(ar, ["ComputedAuthorizationItem"], "vx_ph_authz")
             u.raw("""
 // derived Clone of ComputedAuthorizationItem (HashMap / HashSet / String fields, all Clone by value): a copy. Trusted.
 pub assume_specification [<ComputedAuthorizationItem as Clone>::clone] (c: &ComputedAuthorizationItem) -> (r: ComputedAuthorizationItem)
@@ -162,7 +162,8 @@ def build_status_actor(u, asw):
 use crate::proxy::proxy_summary::ProxySummary;
 use crate::proxy_agent_shared::proxy_agent_aggregate_status::ProxyConnectionSummary;
 use std::collections::{hash_map, HashMap};
-use tokio::sync::{mpsc, oneshot};"""
+use tokio::sync::{mpsc, oneshot};
+use vstd::std_specs::hash::*;"""
     with u.mod("agent_status_wrapper", uses=uses):
         FN = "AgentStatusSharedState::start_new"
         it = asw.item(FN, "fn")
